@@ -90,6 +90,10 @@ def schema_tag(err):
 def check_document(ctx, text, allow_nan, nobs_hint=None):
     """Parse one emitted document independently of the library and validate it."""
     ctx.count('documents_schema_validated')
+    ctx.count('j:schema:*')
+    ctx.count('j:document:not-parseable-json')
+    if not allow_nan:
+        ctx.count('j:document:non-finite-token-without-undefined-slice')
     try:
         doc = pyjson.loads(text, parse_constant=None if allow_nan else _forbid_constant)
     except ValueError as e:
@@ -137,6 +141,7 @@ class DocMonitor(taps.Monitor):
 
 def setup(ctx):
     global PE, JIO, PIO, MON, SCHEMA_VALIDATOR
+    rt_io.count_judgements(ctx)
     import jsonschema
     import pyerrors as pe
     import pyerrors.input.json as jio
@@ -157,9 +162,9 @@ def teardown(ctx):
 
 
 def plan(tier):
-    m = 1 if tier == 'quick' else 40
+    m = 1 if tier == 'quick' else 30
     return [('obs', 270 * m), ('list', 180 * m), ('array', 210 * m), ('corr1', 180 * m), ('corrN', 100 * m), ('multi', 90 * m),
-            ('dict', 140 * m), ('frame', 120 * m), ('pickle', 110 * m), ('rew', 70 * m), ('edge', 30 * m), ('history', 80 * m), ('alias', 70 * m)]
+            ('dict', 140 * m), ('frame', 120 * m), ('pickle', 110 * m), ('rew', 120 * m), ('edge', 150 * m), ('history', 80 * m), ('alias', 70 * m)]
 
 
 # ------------------------------------------------------------------------------------------
@@ -387,6 +392,9 @@ def cmp_tree(ctx, g, e, prof, where, env='top', pairs=None):
         if prof.check_tag:
             same = json_strict_equal(g['tag'], e['tag'])
             ctx.ev()
+            ctx.count('j:%s:tag' % prof.fam)
+            if prof.fam != 'pickle' and obs_kind == 'single-obs' and e['tag'] is not None and not e['tag']:
+                ctx.count('j:json:single-obs-falsy-tag-not-written')
             if not same:
                 ctx.violation(classify_tag_mismatch(prof, obs_kind, g['tag'], e['tag']),
                               {'where': where, 'got': repr(g['tag'])[:200], 'exp': repr(e['tag'])[:200], 'structure': obs_kind})
@@ -552,6 +560,8 @@ def expect_top(x):
 
 def guarded_write(ctx, x, fn):
     """Run a writer; classify the one exception whose cause is known (a numpy bool as reweighted flag)."""
+    if any(o.reweighted for o in walk_obs(x)):
+        ctx.count('j:json:write:numpy-bool-reweighted-flag-not-serialisable')      # a reweighted structure reached a writer
     try:
         return True, fn()
     except ValueError as e:
@@ -682,7 +692,7 @@ def run_dict(ctx, rng, support, tmp, with_empty_list=False):
         sub = next((v for v in d.values() if isinstance(v, dict)), None)
         if sub is not None:
             sub['look2'] = [str(rng.choice(LOOKALIKE[reps])), 1]
-    if rng.random() < 0.12:
+    if rng.random() < 0.35:
         # a string that does match the placeholder in force: refusing is the documented reaction, substituting it on import is not
         bad = dict(d)
         bad['collision'] = reps + '0'
@@ -690,6 +700,7 @@ def run_dict(ctx, rng, support, tmp, with_empty_list=False):
             JIO.dump_dict_to_json(bad, stem + 'c', description=desc, indent=indent, gz=gz, **kw)
         except Exception as e:
             ctx.ev()
+            ctx.count('j:jsondict:placeholder-lookalike-string-replaced-on-import')
             ctx.count('placeholder_collision_refused')
             ctx.require('placeholder' in str(e), 'jsondict:placeholder-collision-unexpected-error', {'error': repr(e)[:200]})
         else:
@@ -698,6 +709,8 @@ def run_dict(ctx, rng, support, tmp, with_empty_list=False):
                         {'got': type(rb.get('collision')).__name__})
     frozen = freeze(d)
     frozen_desc = copy.deepcopy(desc)
+    if with_empty_list:
+        ctx.count('j:jsondict:empty-list-value-raises-IndexError')
     try:
         okw, _ = guarded_write(ctx, d, lambda: JIO.dump_dict_to_json(d, stem, description=desc, indent=indent, gz=gz, **kw))
     except IndexError:
@@ -735,6 +748,7 @@ CSV_NAME = 'df-csv:dump_df-appends-.csv-to-name-ending-in-.csv.gz-where-load_df-
 
 
 def frame_read(ctx, fn, auto_gamma, short_lists):
+    ctx.count('j:' + ONE_ELEMENT_LIST, len(short_lists))
     try:
         return fn()
     except (TypeError, AttributeError) as e:
@@ -788,6 +802,8 @@ def run_frame(ctx, rng, support, transport, tmp):
             return
         path = stem + '.csv' + ('.gz' if gz else '')
         read_name = given if rng.random() < 0.6 else (stem if rng.random() < 0.5 else path)
+        if given.endswith('.csv.gz'):
+            ctx.count('j:' + CSV_NAME)
         if not os.path.exists(path):
             # dump_df and load_df must agree on where a given name lives (as dump_to_json / load_json do)
             found = sorted(f for f in os.listdir(tmp) if f.startswith('frame'))
@@ -963,6 +979,7 @@ def run_edge(ctx, rng, idx, tmp):
     a[()] = make_obs(ctx, rng, support)
     transport = ['string', 'file.gz'][idx % 2]
     ctx.cell('array0d', support, transport)
+    ctx.count('j:json:zero-dimensional-array-written-but-not-readable')
     MON.docs.clear()
     if transport == 'string':
         s = JIO.create_json_string(a)
